@@ -79,6 +79,16 @@ class Unit:
         if self.container == "tuple" and self.member is not None:
             pos = scan.tuple_param_positions(self.model, self.member)
             c.pos = pos.get(c.param)
+            if c.pos is None:
+                # polled through an inlined generic helper (`poll_slot(self.futures.A.as_mut(), cx)`): the callee is
+                # dispatched on the helper's own type parameter; the receiver still names the field, and the macros
+                # name each child field after its type parameter
+                t = c.child
+                while t is not None and t[0] in ("field", "variant", "index"):
+                    if t[0] == "field" and t[2] in pos:
+                        c.pos = pos[t[2]]
+                        break
+                    t = t[1]
             # scan loop index: the loop item of the innermost loop whose term is compared to constants
             c.loop_idx, c.arm = self._find_arm(site.block)
         else:
